@@ -1446,6 +1446,8 @@ impl<'de, R: Read<'de>> Parser<R> {
             .extend_from_slice(buffer.format(exponent).as_bytes());
         // SAFETY: Unsafe should be OK here, as `itoa::Buffer::format()` should
         // never produce non-ASCII output.
+        #[cfg(lexpr_verif)]
+        verif::utf8_check(&self.scratch);
         let f: f64 = unsafe { str::from_utf8_unchecked(&self.scratch) }
             .parse()
             .map_err(|_| self.error(ErrorCode::NumberOutOfRange))?;
@@ -1777,6 +1779,23 @@ pub mod verif {
     /// Deepest nesting of parser activations since the last `reset`.
     pub fn high_water() -> usize {
         HIGH.with(|h| h.get())
+    }
+
+    thread_local! {
+        static BAD_UTF8: Cell<usize> = Cell::new(0);
+    }
+
+    /// Called immediately before each unchecked conversion of bytes to `str` / `String`:
+    /// counts buffers that are not well-formed UTF-8.
+    pub fn utf8_check(bytes: &[u8]) {
+        if std::str::from_utf8(bytes).is_err() {
+            BAD_UTF8.with(|b| b.set(b.get() + 1));
+        }
+    }
+
+    /// Number of ill-formed buffers seen by `utf8_check` since the last call (resets the count).
+    pub fn take_utf8_violations() -> usize {
+        BAD_UTF8.with(|b| b.replace(0))
     }
 }
 
